@@ -29,7 +29,7 @@ type dt1 struct {
 }
 
 type taintSummary struct {
-	problems     []string
+	problems      []string
 	resultTainted bool
 }
 
